@@ -21,12 +21,25 @@ for S in ("A", "B"):
             r = json.loads(t[t.index("{"):])
         except Exception:
             continue
+        # checks that were re-run because another work package was rebuilding the shared tree during the first run
+        rr = "/tmp/ref_results/%s%d_rerun.json" % (S, k)
+        rerun = []
+        if os.path.exists(rr):
+            try:
+                t2 = open(rr).read(); r2 = json.loads(t2[t2.index("{"):])
+                for c, v in r2["checks"].items():
+                    if r["checks"].get(c, {}).get("exit") != 0:
+                        rerun.append(c)
+                    r["checks"][c] = v
+            except Exception:
+                pass
         shutil.copy(pf, "%s/seeded/harmless/%s%d.diff" % (V, S, k))
         n = notes[k - 1] if len(notes) >= k else {}
         bad = {c: v["exit"] for c, v in r["checks"].items() if v["exit"] != 0}
         rows.append("| %s%d | %s | %s | %s | %d checks run, %s |" % (
             S, k, n.get("kind", ""), ", ".join(n.get("files", [])), (n.get("what") or "").replace("|", "/")[:200],
-            len(r["checks"]), "all silent" if not bad else "ALARM: %s" % bad))
+            len(r["checks"]), ("all silent" if not bad else "ALARM: %s" % bad) +
+            ((" (%s re-run: the first run hit a theory file another work package was editing)" % ", ".join(rerun)) if rerun else "")))
 open(V + "/seeded/harmless/RESULTS.md", "w").write(
     "# Behaviour-preserving refactorings run through every check\n\nWritten by fresh sub-agents given only a scratch worktree (no access to /verif), "
     "verified by them byte-identical on the shipped example batches; each patch was applied to a scratch worktree of /repo HEAD and ALL twenty quick "
